@@ -62,7 +62,16 @@ def _classes():
     class X:
         pass
 
-    return {"A": A, "B": B, "C": C, "D": D, "E": E, "M": M, "X": X}
+    import abc
+
+    class S(abc.ABC):   # an abstract base with a VIRTUAL subclass: issubclass(V, S) although S is not in V.__mro__
+        pass
+
+    class V:
+        pass
+
+    S.register(V)
+    return {"A": A, "B": B, "C": C, "D": D, "E": E, "M": M, "X": X, "S": S, "V": V}
 
 
 # reduced alphabet for the exhaustive part: ("reg", classes, allow_subclasses, priority, attr, metaclass) | ("res", cls)
@@ -103,13 +112,13 @@ def setup(ctx):
 
 def gen_op(rng):
     if rng.random() < 0.5:
-        return ("res", rng.choice(["A", "B", "C", "D", "E", "M", "X"]))
+        return ("res", rng.choice(["A", "B", "C", "D", "E", "M", "X", "V", "V", "S"]))
     r = rng.random()
     classes = ()
     attr = None
     meta = False
     if r < 0.7:
-        classes = tuple(rng.sample(["A", "B", "C", "D", "E", "M", "X"], rng.choice([1, 1, 1, 2])))
+        classes = tuple(rng.sample(["A", "B", "C", "D", "E", "M", "X", "S", "S", "V"], rng.choice([1, 1, 1, 2])))
     if r >= 0.7 or rng.random() < 0.15:
         if rng.random() < 0.5:
             attr = "tag"
